@@ -97,6 +97,19 @@ let resp_s = function
   | RPairs ps -> "[" ^ String.concat ";" (List.map pair_s ps) ^ "]"
   | RLocks ls -> "K[" ^ String.concat ";" (List.map (fun (k, l) -> hx k ^ "," ^ hx l.l_primary ^ "," ^ hx l.l_start ^ "," ^ opc l.l_op ^ "," ^ hx l.l_ttl ^ "," ^ hx l.l_for_update) ls) ^ "]"
 
+let errd_s = function
+  | EPlain e -> err_s e
+  | EDeadlock (lts, k, wk) -> Printf.sprintf "DL(%s,%s,%s)" (hx lts) (hx k) (hx wk)
+  | EDetectorOutOfFuel -> "DETECTOR-OUT-OF-FUEL"
+let respd_s = function
+  | RD r -> resp_s r
+  | RPessD (es, rs) -> "E[" ^ String.concat ";" (List.map errd_s es) ^ "]R[" ^ String.concat ";" (List.map pres_s rs) ^ "]"
+(* the wait-for graph in ascending transaction order (numeric), as the Go driver prints it *)
+let detector_s (d : (n * (n * n) list) list) =
+  if d = [] then "-" else
+    let cmpn a b = if a = b then 0 else if N.ltb a b then -1 else 1 in
+    String.concat " " (List.map (fun (t, l) -> hx t ^ ">" ^ String.concat "," (List.map (fun (w, k) -> hx w ^ ":" ^ hx k) l))
+                         (List.sort (fun (a, _) (b, _) -> cmpn a b) d))
 let wk_s = function WPut -> "P" | WDel -> "D" | WRollback -> "R" | WLock -> "L"
 let ks_s (ks : kstate) =
   (match ks.ks_lock with
@@ -257,6 +270,7 @@ let sid = ref "" and sclass = ref ""
 let cmds_txt : string list ref = ref []      (* reversed *)
 let cmds : cmd list ref = ref []             (* reversed *)
 let mst : store ref = ref []                 (* model state *)
+let mdet : (n * (n * n) list) list ref = ref []   (* model state: the deadlock detector *)
 let prev_dump = ref "" and prev_resp = ref "" and prev_cmd = ref ""
 let seq_bad = ref false and seq_nontrivial = ref false and seq_disc = ref true
 let reported = ref 0 and reported_pf = ref 0
@@ -289,7 +303,7 @@ let () =
     match split_tab line with
     | ["S"; id; cl] ->
       finish_seq ();
-      sid := id; sclass := cl; cmds_txt := []; cmds := []; mst := []; seq_bad := false; seq_pf := false; seq_nontrivial := false; seq_disc := true;
+      sid := id; sclass := cl; cmds_txt := []; cmds := []; mst := []; mdet := []; seq_bad := false; seq_pf := false; seq_nontrivial := false; seq_disc := true;
       prev_dump := "-/ -/ -/ -/"; prev_resp := ""; prev_cmd := "";
       bump ("class:" ^ cl)
     | ["HS"; id; cls] ->
@@ -306,13 +320,14 @@ let () =
         report "PROPFAIL" "handler_glue" ("handler answered " ^ got ^ ", MVCCStore call (through the glue rules) " ^ want ^ " : " ^ verdict);
         cmds_txt := keep
       end
-    | ["O"; ctxt; iresp; idump] ->
+    | ["O"; ctxt; iresp; idump; iddump] ->
       incr nops;
       let c = (try parse_cmd ctxt with e -> (report "MISMATCH" "unparsable-command" ctxt; Get (N0, N0, []))) in
       cmds_txt := ctxt :: !cmds_txt; cmds := c :: !cmds;
-      let (st', r) = step !mst c in
-      let mresp = resp_s r and mdump = dump_s st' in
-      mst := st';
+      let ((st', d'), r) = dstep (!mst, !mdet) c in
+      let mresp = respd_s r and mdump = dump_s st' in
+      mst := st'; mdet := d';
+      let mddump = detector_s d' in
       let opname = List.hd (split ' ' ctxt) in
       let rclass =
         (* coarse class: constructor letters and list punctuation only, payloads dropped *)
@@ -324,7 +339,8 @@ let () =
       if not (iresp = "ok" || iresp = "[ok]" || iresp = "E[]R[]" || iresp = "V(-)" || iresp = "[]" || iresp = "K[]") then seq_nontrivial := true;
       if trace then Printf.printf "TRACE\t%s\timpl=%s\tmodel=%s\timpl_state=%s\tmodel_state=%s\n" ctxt iresp mresp idump mdump;
       if mresp <> iresp then begin incr nmism; report "MISMATCH" "response" ("impl=" ^ iresp ^ "\tmodel=" ^ mresp) end
-      else if mdump <> idump then begin incr nmism; report "MISMATCH" "state" ("impl=" ^ idump ^ "\tmodel=" ^ mdump) end;
+      else if mdump <> idump then begin incr nmism; report "MISMATCH" "state" ("impl=" ^ idump ^ "\tmodel=" ^ mdump) end
+      else if mddump <> iddump then begin incr nmism; report "MISMATCH" "detector" ("impl=" ^ iddump ^ "\tmodel=" ^ mddump) end;
       (* property oracles on the implementation's observables *)
       let ist_before = (try parse_dump !prev_dump with _ -> []) and ist_after = (try parse_dump idump with e -> (report "MISMATCH" "unparsable-dump" idump; [])) in
       if !seq_disc then begin
